@@ -10,9 +10,10 @@ _SUMM = {}
 
 
 def _work(args):
-    path, budget, summ, only = args
+    path, budget, summ, only = args[:4]
+    ib = args[4] if len(args) > 4 else 800000
     try:
-        return abi.sweep_object(path, time_budget=budget, summaries=summ, only=only)
+        return abi.sweep_object(path, time_budget=budget, summaries=summ, only=only, insn_budget=ib)
     except Exception as e:
         return [dict(name=os.path.basename(path), result='inconclusive', detail='worker crash: %s' % e, object=path)]
 
@@ -56,12 +57,13 @@ def c_referenced(ctx):
 
 def run(ctx):
     quick = ctx.quick()
-    dirs = ['sse_t1', 'x86_64', 'avx512_t2'] if quick else ['x86_64', 'sse_t1', 'sse_t2', 'sse_t3', 'avx2_t1', 'avx2_t2', 'avx2_t3', 'avx512_t1', 'avx512_t2']
+    dirs = ['x86_64', 'sse_t1', 'sse_t2', 'sse_t3', 'avx2_t1', 'avx2_t2', 'avx2_t3', 'avx512_t1', 'avx512_t2']   # every variant directory in both tiers
     if os.environ.get('VERIF_DIRS'):
         dirs = os.environ['VERIF_DIRS'].split(',')
-    budget = 90.0 if quick else 600.0
+    budget = 1200.0   # wall-clock safety net only; the deterministic bound is the instruction budget below
+    ibudget = 800000 if quick else 4000000
     ctx.bounds.update({'units': 'every .asm file of ' + ','.join(dirs), 'loop_bound': 'each branch direction at most 2 times per call context on a symbolic condition',
-                       'entry_rsp': 'concrete, 8 mod 16; all other registers symbolic', 'time_budget_per_function_s': budget})
+                       'entry_rsp': 'concrete, 8 mod 16; all other registers symbolic', 'instruction_budget_per_function': ibudget})
     ctx.assume('sweep mode: exact semantics for general-purpose/stack/control instructions; SIMD and unmodelled instructions havoc their destination '
                '(over-approximation); both directions of every non-constant branch are followed (superset of feasible paths); a reported path is confirmed '
                'by a z3 query under its path condition')
@@ -89,7 +91,7 @@ def run(ctx):
             else:
                 only = None
             changed = False
-            for rs in pool.imap_unordered(_work, [(path, budget, dict(summ), only) for rel, path in todo]):
+            for rs in pool.imap_unordered(_work, [(path, budget, dict(summ), only, ibudget) for rel, path in todo]):
                 for r in rs:
                     results[r['name']] = r
             new = {n: r['clobbers'] for n, r in results.items() if r.get('clobbers')}
